@@ -259,6 +259,8 @@ def R6_settlement_sides(run):
     from rules.common import RuleProxy
     from rules import C06
     C06.R3_booking_side(RuleProxy(run, "R6"))
+    from rules.common import entry_forwarding
+    entry_forwarding(run, "R6", only=("two_hop_swap",))
 
 
 RULES = [R1_legs, R2_coupling, R3_equality_guard, R4_distinct_and_shared_mint, R5_settlement, R6_settlement_sides]
